@@ -22,6 +22,7 @@ RULE = ("scaled / fixed-variable / linearly and nonlinearly constrained "
         "constraint kind, scale, k bucket)")
 RULE += ("  Also: scaled problems whose solution sits on the bounds; unhashable callable callbacks.")
 RULE += (" Problems rich in second-order corrections.")
+RULE += (' Undefined / infinite / beyond-barrier objective values around x0: the callback is shown the raw values of the best point.')
 ASSUMPTIONS = [
     "solver deterministic (C11): reruns reproduce the base run up to call k",
     "optimality judged with the C03 reference model and the harness' true "
